@@ -110,3 +110,17 @@ pub assume_specification[ u32::from_str_radix ](s: &str, radix: u32) -> (r: Resu
             Ok(n) => n == sh_oct_value(str_bytes(s)),
             Err(_) => sh_oct_value(str_bytes(s)) > u32::MAX,
         });
+
+// ---------------------------------------------------------------------------------------------- literal prefixes
+/// `s` starts with `p`
+pub open spec fn prefix_is(s: Seq<u8>, p: Seq<u8>) -> bool { s.len() >= p.len() && s.subrange(0, p.len() as int) == p }
+// ASSUMED (std docs, `<[T]>::strip_prefix`): "Returns a subslice with the prefix removed. If the slice starts with
+// `prefix`, returns the subslice after the prefix, wrapped in `Some`. ... If the slice does not start with `prefix`,
+// returns `None`."  Rule R9-inline rewrites `X.strip_prefix(b"LIT")` to `strip_prefix_lit(X, BS_<hex>)` (the generic
+// `SlicePattern` bound of the std method cannot be named in an assume_specification).
+#[verifier::external_body]
+pub fn strip_prefix_lit<'a>(input: &'a [u8], prefix: &[u8]) -> (r: Option<&'a [u8]>)
+    ensures
+        r matches Some(rest) ==> prefix_is(input@, prefix@) && rest@ == input@.subrange(prefix@.len() as int, input@.len() as int),
+        r is None ==> !prefix_is(input@, prefix@),
+{ input.strip_prefix(prefix) }
